@@ -28,6 +28,7 @@ pub mod uci_prelude {
     pub use ::std::str::SplitAsciiWhitespace;
     pub use ::std::sync::Arc;
     pub use ::std::time::Duration;
+    pub use super::std_shadow as std;
 }
 
 pub mod search_prelude {
@@ -37,6 +38,7 @@ pub mod search_prelude {
     pub use super::thread::{self, JoinHandle};
     pub use ::std::sync::Arc;
     pub use ::std::time::Duration;
+    pub use super::std_shadow as std;
 }
 
 pub mod autoplay_prelude {
@@ -46,12 +48,43 @@ pub mod autoplay_prelude {
     pub use super::thread::{self, JoinHandle};
     pub use ::std::sync::Arc;
     pub use ::std::time::Duration;
-    /// `autoplay.rs` writes `std::thread::spawn` / `std::thread::sleep` in full; this module
-    /// shadows the extern crate name inside that file. Everything else of `std` stays reachable.
-    pub mod std {
-        pub use ::std::{cmp, collections, fmt, io, iter, mem, ops, str, string, sync, time, vec};
-        pub mod thread {
-            pub use crate::verif_shim::thread::{sleep, spawn, yield_now, JoinHandle};
+    pub use super::std_shadow as std;
+}
+
+/// Shadows the extern crate name `std` inside the three files that take a prelude (glob imports rank above the
+/// extern prelude). `autoplay.rs` writes `std::thread::spawn` / `std::thread::sleep` in full, and an edit of
+/// `uci.rs` or `search.rs` may do the same: threads, sleeping, the clock, the mutex, the stop flag, stdin and the
+/// table are the simulator's under whatever path they are named. Everything else of `std` is re-exported as it is.
+pub mod std_shadow {
+    pub use ::std::{alloc, any, array, ascii, borrow, boxed, cell, char, clone, cmp, convert, default, env, error, ffi, fmt, fs, future, hash, hint, iter, marker, mem, net, num, ops, option, panic, path, pin, prelude, primitive, process, ptr, rc, result, slice, str, string, task, vec};
+    pub use ::std::{f32, f64, i128, i16, i32, i64, i8, isize, u128, u16, u32, u64, u8, usize};
+    pub use ::std::{assert, assert_eq, assert_ne, dbg, debug_assert, debug_assert_eq, debug_assert_ne, eprint, eprintln, format, format_args, matches, thread_local, todo, unimplemented, unreachable, write, writeln};
+    pub mod thread {
+        pub use crate::verif_shim::thread::{sleep, spawn, yield_now, JoinHandle};
+        pub use ::std::thread::*;
+    }
+    pub mod time {
+        pub use crate::verif_shim::thread::Instant;
+        pub use ::std::time::*;
+    }
+    pub mod io {
+        pub use crate::verif_shim::stdio::stdin;
+        pub use ::std::io::*;
+    }
+    pub mod collections {
+        pub use crate::verif_shim::hashmap::HashMap;
+        pub use ::std::collections::*;
+        pub mod hash_map {
+            pub use crate::verif_shim::hashmap::HashMap;
+            pub use ::std::collections::hash_map::*;
+        }
+    }
+    pub mod sync {
+        pub use crate::verif_shim::sync::{Mutex, MutexGuard};
+        pub use ::std::sync::*;
+        pub mod atomic {
+            pub use crate::verif_shim::sync::AtomicBool;
+            pub use ::std::sync::atomic::*;
         }
     }
 }
